@@ -8,7 +8,8 @@ import DustVerif.Driver.Util
     next                           `duration_until_next_timer` in whole units           -> none | <d>
     sleep sid dur | poll sid | drop sid     `Sleep` created / polled / dropped          -> ok | ready | pending | gone
     recv                           the thread receives one queued `TimerMessage`        -> wake id len= | cancel id len= | empty
-    smoke.* …                      real-time smoke tests of the public API (the model answers `ok`) -/
+    smoke.* …                      real-time smoke tests of the public API (the model answers `ok`);
+                                   smoke.chain k ms d / smoke.yields k d: block_timeout(d x 10 ms) around a future that needs k wake-ups -/
 namespace DustVerif.Driver.TimerEngine
 open DustVerif.Timer DustVerif.Driver
 
@@ -82,6 +83,10 @@ def step (s : Sys) (line : String) : Sys × String :=
   | "smoke.drop" :: args => (s, smokeOk args 1)
   | "smoke.block_on" :: args => (s, smokeOk args 1)
   | "smoke.timeout" :: args => (s, smokeOk args 2)
+  -- a future that completes after k wake-ups far inside the timeout must get `Ok` (C42_block_timeout_no_early_timeout /
+  -- C42_block_timeout_ok_iff: the deadline is fixed at the start, the number of wake-ups before it does not matter)
+  | "smoke.chain" :: args => (s, smokeOk args 3)
+  | "smoke.yields" :: args => (s, smokeOk args 2)
   | _ => (s, "bad-op")
 
 end DustVerif.Driver.TimerEngine
